@@ -1,2 +1,13 @@
 import OlVerif.Props.C08
 #print axioms OlVerif.C08.reject_other_stmt
+#print axioms OlVerif.C08.reject_at_any_depth
+#print axioms OlVerif.C08.reject_expr_at_any_depth
+#print axioms OlVerif.C08.reject_contained
+#print axioms OlVerif.C08.reject_unsupported_stmt
+#print axioms OlVerif.C08.reject_yield_stmt
+#print axioms OlVerif.C08.reject_star_import
+#print axioms OlVerif.C08.reject_two_stars
+#print axioms OlVerif.C08.reject_break_module
+#print axioms OlVerif.C08.reject_return_module
+#print axioms OlVerif.C08.reject_continue_in_def
+#print axioms OlVerif.C08.reject_return_in_class
